@@ -5,7 +5,7 @@ import math
 
 import z3
 
-from .core import (Arr, BoundMethod, ClassV, ExcInstance, ExcType, Func, Lam, LibMethod,
+from .core import (SymList, Arr, BoundMethod, ClassV, ExcInstance, ExcType, Func, Lam, LibMethod,
                    LibRef, Obj, Opaque, PyRaise, Unsupported, builtin_exc, is_bool_sym, is_sym,
                    ite, rv, simp, sort_kind, sym_floor, to_int_of_bool, to_real, to_z3, unify,
                    RepoModRef, FLOOR)
@@ -427,6 +427,9 @@ class Lib:
             if isinstance(i, Opaque) and getattr(i, 'enum_member', False):
                 raise PyRaise(builtin_exc('TypeError'), 'indices must be integers')
             raise Unsupported('index %r into sequence' % (idx,))
+        if isinstance(v, SymList):
+            k = self.wrap_index(idx, v.n, 'list index')
+            return v.f(k)
         if isinstance(v, dict):
             if is_sym(idx):
                 raise Unsupported('symbolic dict key')
@@ -752,6 +755,10 @@ class Lib:
             if hasattr(v, 'getattr'):
                 return v.getattr(self.I, name)
             return LibMethod(v, name)
+        if isinstance(v, SymList):
+            if not hasattr(list, name):
+                raise PyRaise(builtin_exc('AttributeError'), "'list' object has no attribute '%s'" % name)
+            return LibMethod(v, name)
         if isinstance(v, (str, list, tuple, dict, set, int, float)):
             if not hasattr(type(v), name):
                 raise PyRaise(builtin_exc('AttributeError'), "'%s' object has no attribute '%s'" % (type(v).__name__, name))
@@ -855,6 +862,11 @@ class Lib:
     def call_method(self, recv, name, args, kwargs):
         if isinstance(recv, Arr):
             key = ('Arr', name)
+        elif isinstance(recv, SymList):
+            if name == 'append':
+                recv.append(args[0])
+                return None
+            raise Unsupported('list.%s on a list of symbolic length' % name)
         elif isinstance(recv, str):
             return self._str_method(recv, name, args, kwargs)
         elif isinstance(recv, list):
@@ -954,6 +966,10 @@ def _len(L, x):
         return x.shape[0]
     if isinstance(x, (list, tuple, str, dict, set)):
         return len(x)
+    if isinstance(x, SymList):
+        return x.n
+    if isinstance(x, Opaque) and getattr(x, 'no_len', False):
+        raise PyRaise(builtin_exc('TypeError'), "object of type 'generator' has no len()")
     if isinstance(x, Opaque) and hasattr(x, 'len'):
         return x.len(L.I)
     if isinstance(x, Obj):
@@ -1017,6 +1033,13 @@ def _int(L, x=0, *rest):
         except (ValueError, TypeError, OverflowError) as e:
             raise PyRaise(builtin_exc(type(e).__name__), str(e))
     raise Unsupported('int(%r)' % type(x))
+
+
+@model('builtins.next')
+def _next(L, it, *default):
+    if isinstance(it, Opaque) and hasattr(it, 'next'):
+        return it.next(L.I)
+    raise Unsupported('next() of %r' % (it,))
 
 
 @model('builtins.bool')
